@@ -17,8 +17,8 @@ pub enum StrMode { Borrowed, Transient, Owned }
 
 #[derive(Debug, Clone, Copy)]
 pub enum Ev<'de> {
-    U8(u8), U16(u16), U32(u32), U64(u64), U128(u128),
-    I8(i8), I16(i16), I32(i32), I64(i64), I128(i128),
+    U8(u8), U16(u16), U32(u32), U64(u64),
+    I8(i8), I16(i16), I32(i32), I64(i64),
     F32(f32), F64(f64), Bool(bool), Char(char), Unit, None,
     Str(&'de str, StrMode),
     /// a sequence of `n` (<= 2) copies-with-own-payload events
@@ -44,19 +44,6 @@ impl kani::Arbitrary for Prim {
     }
 }
 
-/// arbitrary non-text event
-#[cfg(kani)]
-pub fn any_scalar_event<'de>() -> Ev<'de> {
-    match kani::any::<u8>() % 19 {
-        0 => Ev::U8(kani::any()), 1 => Ev::U16(kani::any()), 2 => Ev::U32(kani::any()), 3 => Ev::U64(kani::any()), 4 => Ev::U128(kani::any()),
-        5 => Ev::I8(kani::any()), 6 => Ev::I16(kani::any()), 7 => Ev::I32(kani::any()), 8 => Ev::I64(kani::any()), 9 => Ev::I128(kani::any()),
-        10 => Ev::F32(kani::any()), 11 => Ev::F64(kani::any()), 12 => Ev::Bool(kani::any()), 13 => Ev::Char(kani::any()), 14 => Ev::Unit, 15 => Ev::None,
-        16 => Ev::Seq2(kani::any(), kani::any(), kani::any::<u8>() % 3),
-        17 => Ev::SomeOf(kani::any()),
-        _ => Ev::Str("7", StrMode::Borrowed),
-    }
-}
-
 pub static mut LAST_NEWTYPE_NAME: &'static str = "";
 pub static mut NEWTYPE_CALLS: u32 = 0;
 
@@ -67,25 +54,25 @@ impl<'de> StubDe<'de> {
     pub fn new(ev: Ev<'de>) -> Self { StubDe { ev } }
     fn deliver<V: Visitor<'de>>(self, v: V) -> Result<V::Value, E> {
         match self.ev {
-            Ev::U8(x) => v.visit_u8(x), Ev::U16(x) => v.visit_u16(x), Ev::U32(x) => v.visit_u32(x), Ev::U64(x) => v.visit_u64(x), Ev::U128(x) => v.visit_u128(x),
-            Ev::I8(x) => v.visit_i8(x), Ev::I16(x) => v.visit_i16(x), Ev::I32(x) => v.visit_i32(x), Ev::I64(x) => v.visit_i64(x), Ev::I128(x) => v.visit_i128(x),
+            Ev::U8(x) => v.visit_u8(x), Ev::U16(x) => v.visit_u16(x), Ev::U32(x) => v.visit_u32(x), Ev::U64(x) => v.visit_u64(x),
+            Ev::I8(x) => v.visit_i8(x), Ev::I16(x) => v.visit_i16(x), Ev::I32(x) => v.visit_i32(x), Ev::I64(x) => v.visit_i64(x),
             Ev::F32(x) => v.visit_f32(x), Ev::F64(x) => v.visit_f64(x), Ev::Bool(x) => v.visit_bool(x), Ev::Char(x) => v.visit_char(x),
             Ev::Unit => v.visit_unit(), Ev::None => v.visit_unit(),
             Ev::Str(s, StrMode::Borrowed) => v.visit_borrowed_str(s),
             Ev::Str(s, StrMode::Transient) => v.visit_str(s),
             Ev::Str(s, StrMode::Owned) => v.visit_string(String::from(s)),
-            Ev::Seq2(a, b, n) => v.visit_seq(Seq { items: [a, b], n, i: 0 }),
+            Ev::Seq2(a, b, n) => v.visit_seq(Seq { a, b, n, i: 0 }),
             Ev::SomeOf(p) => v.visit_some(StubDe { ev: p.ev() }),
         }
     }
 }
 
-pub struct Seq { items: [Prim; 2], n: u8, i: u8 }
+pub struct Seq { a: Prim, b: Prim, n: u8, i: u8 }
 impl<'de> SeqAccess<'de> for Seq {
     type Error = E;
     fn next_element_seed<T: DeserializeSeed<'de>>(&mut self, seed: T) -> Result<Option<T::Value>, E> {
         if self.i >= self.n { return Ok(None); }
-        let p = self.items[self.i as usize];
+        let p = if self.i == 0 { self.a } else { self.b };
         self.i += 1;
         seed.deserialize(StubDe { ev: p.ev() }).map(Some)
     }
@@ -144,4 +131,25 @@ impl<'de> Deserializer<'de> for StubMapDe<'de> {
     fn deserialize_any<V: Visitor<'de>>(self, v: V) -> Result<V::Value, E> { v.visit_map(Map1 { key: self.key, val: self.val, state: 0 }) }
     serde::forward_to_deserialize_any! { bool i8 i16 i32 i64 i128 u8 u16 u32 u64 u128 f32 f64 char str string bytes byte_buf option unit unit_struct
         newtype_struct seq tuple tuple_struct map struct enum identifier ignored_any }
+}
+
+/// 128-bit integer events get their own deserializer type: serde's default `visit_u128`/`visit_i128` (what every visitor
+/// other than the 128-bit primitive ones inherits) formats the number into the error message, so a 128-bit arm inside
+/// `StubDe::deliver` would drag `core::fmt::num` into every harness.
+#[derive(Clone, Copy)]
+pub enum Ev128 { U(u128), I(i128) }
+#[derive(Clone, Copy)]
+pub struct StubDe128 { pub ev: Ev128 }
+impl StubDe128 {
+    fn deliver<'de, V: Visitor<'de>>(self, v: V) -> Result<V::Value, E> { match self.ev { Ev128::U(x) => v.visit_u128(x), Ev128::I(x) => v.visit_i128(x) } }
+}
+impl<'de> Deserializer<'de> for StubDe128 {
+    type Error = E;
+    fn deserialize_any<V: Visitor<'de>>(self, v: V) -> Result<V::Value, E> { self.deliver(v) }
+    fn deserialize_newtype_struct<V: Visitor<'de>>(self, name: &'static str, v: V) -> Result<V::Value, E> {
+        unsafe { LAST_NEWTYPE_NAME = name; NEWTYPE_CALLS += 1; }
+        v.visit_newtype_struct(self)
+    }
+    serde::forward_to_deserialize_any! { bool i8 i16 i32 i64 i128 u8 u16 u32 u64 u128 f32 f64 char str string bytes byte_buf option unit unit_struct
+        seq tuple tuple_struct map struct enum identifier ignored_any }
 }
